@@ -18,8 +18,8 @@ from typing import Optional
 # S W O G prop links note count c, no single digits 1-9, no N[dmy], no YYMMDD)
 IDENTS = ["foo", "bar", "Baz", "work", "home_2", "a1", "zz9", "tag", "ctx", "who", "prj", "Work", "Z9", "k9", "t_t", "alpha2", "ox", "xo", "o", "x", "due", "file", "none", "type", "priority", "alpha", "create", "modify", "section", "P1", "1015", "2024-01-01", "Some", "Wx", "cc", "fx"]
 KEYS = ["due", "kA", "kB", "ID", "RID", "p", "status", "foo", "file", "type"]
-STR_VALUES = ["foo", "Done", "v1", "x9", "M_Th", "P1", "a1"]
-INT_VALUES = ["0", "10", "42", "100", "007", "1015", "123456", "25"]
+STR_VALUES = ["foo", "Done", "v1", "x9", "M_Th", "P1", "a1", "1_0", "20_24", "1_000_000", "1e3", "0x10", "1_", "0_0", "12abc", "5x"]  # incl. number look-alikes that are NOT all digits
+INT_VALUES = ["0", "10", "42", "100", "007", "1015", "123456", "25", "00"]
 DATE_VALUES = ["2024-01-01", "2024-03-13", "2025-12-31", "2031-03-14", "2000-02-29", "7D", "0D", "2M", "1Y", "10D", "12M"]
 DESC_WORDS = ["foo", "bar", "Foo", "BAR", "note", "50", "a_b", "ox", "quick", "lazy", "Dog", "x9", "the", "zz", "o", "x", "due", "none"]
 DESC_SYMS = ["%", "_", "\\", "&", "=", "(", ")", "?", "*", "~", "#", "@", "+", "-", ".", "/", ":", ";", ",", "`", "{", "}", "<", ">", "^", "$"]
